@@ -494,7 +494,8 @@ def tt_ind2sub(
     if len(shape) == 0:
         # No modes to index (e.g. the empty row or column side of a matricized tensor)
         return np.empty(shape=(idx.size, 0), dtype=int)
-    idx[idx < 0] += prod(shape)  # Handle negative indexing as simply as possible
+    # Handle negative indexing as simply as possible (on a copy: idx belongs to the caller)
+    idx = np.where(idx < 0, idx + prod(shape), idx)
     return np.array(np.unravel_index(idx, shape, order=order)).transpose()
 
 
